@@ -386,6 +386,7 @@ func registerEnv(e *Engine) {
 	registerSkiplist(e)
 	registerBadger(e)
 	registerTiKV(e)
+	registerHTTP(e)
 	e.reg("time.Now", func(in *interp, fr *frame, a []value) value { return in.now() })
 	e.reg("time.Since", func(in *interp, fr *frame, a []value) value {
 		n := in.now().(structure)
